@@ -36,6 +36,10 @@ type C07Plan struct {
 	// on the longest chain. The search pass sets it only where the open finding
 	// C07-checkpoint-contradiction-stored-before-verified does not apply (legacy engine, single checkpoint, final announcement).
 	Strict bool `json:"strict"`
+	// IgnoreStop: the bad node's replies do not end at the requested stop hash (a matching checkpoint header then
+	// arrives in the middle of a batch)
+	IgnoreStop bool `json:"ignoreStop"`
+	VariantB bool `json:"variantB,omitempty"`
 	WaitMs int  `json:"waitMs,omitempty"` // replay files of known findings: one attempt with this bound
 }
 
@@ -131,6 +135,7 @@ func runC07Once(p *C07Plan, long bool) (*stats.Case, error) {
 	}
 	bs := p.BadSpec
 	bs.Cap = p.BadCap
+	bs.IgnoreStop = p.IgnoreStop
 	badNode, err := simnet.NewNode(p.Honest, bs, u.Genesis, bad)
 	if err != nil {
 		return nil, fmt.Errorf("infra: %w", err)
@@ -291,6 +296,13 @@ func runC07Once(p *C07Plan, long bool) (*stats.Case, error) {
 	if err := notServed("final"); err != nil {
 		return nil, err
 	}
+	heights := map[chainhash.Hash]int32{u.Genesis: 0}
+	for _, n := range nodes {
+		for _, b := range n.Chain() {
+			heights[b.Hash] = b.Height
+		}
+	}
+	_ = heights
 	rows, _ := s.Headers()
 	if err := checkStructure(rows); err != nil {
 		return nil, fmt.Errorf("final: %w", err)
@@ -357,8 +369,24 @@ func genC07(t *rapid.T) *C07Plan {
 		p.BadCap = rapid.SampledFrom([]int{2000, 2000, 2, 3}).Draw(t, "cap")
 		// the contradiction is met while that checkpoint is still ahead: the bad node is the first one the service syncs from
 		p.BadFirst = true
-		p.Strict = p.Engine == "legacy"
-		if p.Engine == "legacy" {
+		if len(p.Checkpoints) == 2 && p.Checkpoints[1] >= p.Checkpoints[0]+2 && rapid.Bool().Draw(t, "between") {
+			// variant B: the bad branch matches the first checkpoint and contradicts the second one; the bad node ignores
+			// the stop hash and its batches end between the two, so the matching header sits in the middle of a batch
+			c1, c2 := p.Checkpoints[0], p.Checkpoints[1]
+			p.ForkAt = rapid.IntRange(c1, c2-1).Draw(t, "forkbetween")
+			p.BadLen = c2 - p.ForkAt + rapid.IntRange(0, 2).Draw(t, "beyond2")
+			p.BadCap = rapid.IntRange(c1+1, c2-1+1).Draw(t, "capbetween")
+			if p.BadCap >= c2 {
+				p.BadCap = c2 - 1
+			}
+			if p.BadCap <= c1 {
+				p.BadCap = c1 + 1
+			}
+			p.IgnoreStop = true
+			p.VariantB = true
+		}
+		p.Strict = p.Engine == "legacy" && !p.VariantB
+		if p.Engine == "legacy" && !p.VariantB {
 			p.Checkpoints = p.Checkpoints[:1] // see DESIGN: with further checkpoints ahead the legacy manager ignores late-coming candidates
 		}
 	}
